@@ -22,7 +22,22 @@ for d in sorted(glob.glob(os.path.join(VERIF, "seeded", "*", ""))):
     m.update(n)
     json.dump(m, open(mp, "w"), indent=1)
     rows.append((sid, m.get("property"), m.get("summary", ""), m.get("needs", ""), ", ".join("%s (%s)" % (p, "; ".join(s[:2])) for p, s in m["caught_by"].items()) or "NOT CAUGHT", m.get("strengthened", "")))
+import io
+buf = io.StringIO()
+_print = print
+def print(*a):
+    _print(*a, file=buf)
 print("| seeded change | breaks | what it is | needs, to manifest | caught by (signatures) | check strengthened because of it |")
 print("|---|---|---|---|---|---|")
 for r in rows:
     print("| " + " | ".join(str(x) for x in r) + " |")
+
+table = buf.getvalue().rstrip("\n")
+open(os.path.join(VERIF, "seeded", "TABLE.md"), "w").write(table + "\n")
+dp = os.path.join(VERIF, "DESIGN.md")
+ds = open(dp).read()
+b, e = "<!-- SEEDED-TABLE-BEGIN -->", "<!-- SEEDED-TABLE-END -->"
+if b in ds and e in ds:
+    ds = ds[:ds.index(b) + len(b)] + "\n" + table + "\n" + ds[ds.index(e):]
+    open(dp, "w").write(ds)
+_print("%d seeded changes; not caught: %s" % (len(rows), [r[0] for r in rows if r[4] == "NOT CAUGHT"]))
